@@ -494,6 +494,11 @@ class FitBase(FileIOMixin, object):
         # the new containers bring their own uncertainty sources: forget everything derived from the old ones
         for _error_name in self._BASIC_ERROR_NAMES:
             self._nexus.get(_error_name).mark_for_update()
+        # the new parametric model can differ in more than its parameters (support, number of entries)
+        for _model_name in ("model", "x_model", "y_model"):
+            _model_node = self._nexus.get(_model_name)
+            if _model_node is not None:
+                _model_node.mark_for_update()
 
     @property
     def data_error(self):
